@@ -17,6 +17,9 @@ def obligations(tier):
             o['unwind_fn'] = dict(o['unwind_fn'], **{'^F0__do_cds_lfht_resize$': 3})
             o['bounds']['requested_size'] = n
             obs.append(o)
+    # lazy resize (AUTO_RESIZE | ACCOUNTING, harness SCEN 4 with a deferred-work model of the workqueue and the COUNT_COMMIT_ORDER /
+    # CHAIN_LEN_RESIZE_THRESHOLD hooks) was built but symbolic execution of 2 adds + queued resizes did not finish within 25 minutes
+    # (twice): no obligation is registered for it, see OUTSIDE
     return obs
 
 
